@@ -111,6 +111,9 @@ class SBool:
 
 def _cmp(op):
     def f(self, o):
+        k = self.known()
+        if k is not None and o.__class__ is _int:
+            return op(k, o)
         oe = _e(o)
         if oe is NotImplemented:
             if _isinstance(o, SFix):
@@ -132,16 +135,32 @@ class SInt:
         self.e = e
 
     # arithmetic ------------------------------------------------------------------------
+    def known(self):
+        """the Python int this term is known to equal on the current path, or None"""
+        k = ENG.known
+        if k:
+            return k.get(self.e.get_id())
+        return None
+
     def __add__(self, o):
+        k = self.known()
+        if k is not None:
+            return k + o
         oe = _e(o)
         return NotImplemented if oe is NotImplemented else SInt(self.e + oe)
     __radd__ = __add__
 
     def __sub__(self, o):
+        k = self.known()
+        if k is not None:
+            return k - o
         oe = _e(o)
         return NotImplemented if oe is NotImplemented else SInt(self.e - oe)
 
     def __rsub__(self, o):
+        k = self.known()
+        if k is not None:
+            return o - k
         oe = _e(o)
         return NotImplemented if oe is NotImplemented else SInt(oe - self.e)
 
@@ -368,11 +387,17 @@ class SBytes:
     def _idx(self, i):
         n = self.b - self.a
         if _isinstance(i, SInt):
-            if i < 0:
-                i = i + n
-            if i < 0 or i >= n:
-                raise IndexError('index out of range')
-            return ENG.concretize(i.e)
+            c = ENG.const_of(i.e)
+            if c is not None:
+                i = c
+            else:
+                if i < 0:
+                    i = i + n
+                if i < 0 or i >= n:
+                    raise IndexError('index out of range')
+                return ENG.concretize(i.e)
+        else:
+            i = i.__index__()
         i = i.__index__()
         if i < 0:
             i += n
@@ -385,14 +410,19 @@ class SBytes:
         if v is None:
             return default
         if _isinstance(v, SInt):
-            if v < 0:
-                v = v + n
+            c = ENG.const_of(v.e)
+            if c is not None:
+                v = c
+            else:
                 if v < 0:
-                    return 0
-            if v >= n:
-                return n
-            return ENG.concretize(v.e)
-        v = v.__index__()
+                    v = v + n
+                    if v < 0:
+                        return 0
+                if v >= n:
+                    return n
+                return ENG.concretize(v.e)
+        else:
+            v = v.__index__()
         if v < 0:
             v = max(0, v + n)
         return min(v, n)
@@ -618,6 +648,7 @@ def pack_uint(v, size):
         return [v]
     bs = [ENG.fresh('pk', 0, 255) for _ in range(size)]
     ENG.add(v.e == z3.Sum([b.e * (256 ** (size - 1 - i)) for i, b in enumerate(bs)]))
+    ENG.packmap[tuple(b.e.get_id() for b in bs)] = (v, bs)
     return bs
 
 
@@ -627,6 +658,10 @@ def unpack_uint(chunk):
         return _int.from_bytes(_bytes(chunk), 'big')
     if n == 1:
         return chunk[0]
+    if all(x.__class__ is SInt for x in chunk):
+        hit = ENG.packmap.get(tuple(x.e.get_id() for x in chunk))
+        if hit is not None:
+            return hit[0]         # the very bytes produced by packing a known term: read the term back
     return SInt(z3.Sum([_e(b) * (256 ** (n - 1 - i)) for i, b in enumerate(chunk)]))
 
 
@@ -934,10 +969,11 @@ class Stats:
         self.sym_labels = {}       # label -> number of paths where the obligation was symbolic
         self.capped = 0
         self.sites = {}            # concretisation call sites -> count
+        self.picks = 0             # values committed to by pick() (sampling cuts)
 
     def merge(self, o):
         for k in ('paths', 'aborted', 'inconclusive', 'q_sat', 'q_unsat', 'q_unknown', 'checks',
-                  'checks_trivial', 'capped'):
+                  'checks_trivial', 'capped', 'picks'):
             setattr(self, k, getattr(self, k) + getattr(o, k))
         self.solver_s += o.solver_s
         for k, v in o.labels.items():
@@ -994,6 +1030,10 @@ class Engine:
         self.path_state = {}       # free for stubs (hash registry, clocks, ...)
         self.path_viol = []
         self.choices = []
+        self.packmap = {}
+        self.known = {}
+        self._sub_n = -1
+        self.fixed = []            # (term, numeral) pairs known on this path; substituted before deciding
 
     def explore(self, fn, prefixes=None, max_depth=None):
         """explore every path below each prefix; with max_depth, stop at that many decisions and
@@ -1097,6 +1137,8 @@ class Engine:
     def branch(self, cond):
         if cond is True or cond is False:
             return cond
+        if self.fixed:
+            cond = self._subst(cond)
         cond = z3.simplify(cond)
         if z3.is_true(cond):
             return True
@@ -1118,7 +1160,62 @@ class Engine:
             return alts
         d = self._decide(2, feas)
         self.solver.add(cond if d else z3.Not(cond))
+        if d and cond.decl().kind() == z3.Z3_OP_EQ:
+            a, b = cond.arg(0), cond.arg(1)
+            if z3.is_int_value(b) and not z3.is_int_value(a):
+                self._learn_eq(a, b.as_long())
+            elif z3.is_int_value(a) and not z3.is_int_value(b):
+                self._learn_eq(b, a.as_long())
         return bool(d)
+
+    def const_of(self, e):
+        """int value of term e if it is syntactically constant under what is known on this path"""
+        if self.fixed:
+            e = self._subst(e)
+        e = z3.simplify(e)
+        if z3.is_int_value(e):
+            return e.as_long()
+        return None
+
+    def _subst(self, e):
+        """z3.substitute(e, *self.fixed) without the per-call overhead of the Python wrapper"""
+        n = _len(self.fixed)
+        if self._sub_n != n:
+            self._sub_from = (z3.Ast * n)(*[p[0].as_ast() for p in self.fixed])
+            self._sub_to = (z3.Ast * n)(*[p[1].as_ast() for p in self.fixed])
+            self._sub_n = n
+        ctx = e.ctx
+        return z3.z3._to_expr_ref(z3.Z3_substitute(ctx.ref(), e.as_ast(), n, self._sub_from, self._sub_to), ctx)
+
+    def _learn_eq(self, e, v):
+        """remember e == v on this path; if e is linear in a single variable, also the variable's value"""
+        eid = e.get_id()
+        for p in self.fixed:
+            if p[0].get_id() == eid:
+                return
+        self.fixed.append((e, z3.IntVal(v)))
+        self.known[eid] = v
+        c = 0
+        x = None
+        k = 1
+        terms = e.children() if e.decl().kind() == z3.Z3_OP_ADD else [e]
+        for t in terms:
+            if z3.is_int_value(t):
+                c += t.as_long()
+            elif t.num_args() == 0 and t.decl().kind() == z3.Z3_OP_UNINTERPRETED:
+                if x is not None:
+                    return
+                x, k = t, 1
+            elif (t.decl().kind() == z3.Z3_OP_MUL and t.num_args() == 2 and z3.is_int_value(t.arg(0))
+                  and t.arg(1).num_args() == 0 and t.arg(1).decl().kind() == z3.Z3_OP_UNINTERPRETED):
+                if x is not None:
+                    return
+                x, k = t.arg(1), t.arg(0).as_long()
+            else:
+                return
+        if x is not None and x is not e and k != 0 and (v - c) % k == 0:
+            self.fixed.append((x, z3.IntVal((v - c) // k)))
+            self.known[x.get_id()] = (v - c) // k
 
     def concretize(self, e):
         """fork over the feasible values of the integer term e (model-guided).  The decision records
@@ -1127,6 +1224,8 @@ class Engine:
         at most one per site in a prefix)."""
         if _isinstance(e, _int):
             return e
+        if self.fixed:
+            e = self._subst(e)
         e = z3.simplify(e)
         if z3.is_int_value(e):
             return e.as_long()
@@ -1172,6 +1271,7 @@ class Engine:
                 self.dec.append(d)
             if d[0] == 'v':
                 self.solver.add(e == d[1])
+                self._learn_eq(e, d[1])
                 return d[1]
             excluded = d[1]
             self.solver.add(self._excl(e, excluded))
@@ -1244,6 +1344,21 @@ class Engine:
         self.choices.append(d)
         return d
 
+    def pick(self, x):
+        """commit to ONE solver-chosen value of x without exploring the others (a deliberate cut: the caller
+        states it in its bounds).  The value is recorded as an input so that native replay sees the same."""
+        if not _isinstance(x, SInt):
+            return x
+        r = self._check()
+        if r != z3.sat:
+            self.aborted = True
+            raise PathAbort('infeasible')
+        v = self.solver.model().eval(x.e, model_completion=True).as_long()
+        self.solver.add(x.e == v)
+        self._learn_eq(z3.simplify(x.e), v)
+        self.stats.picks += 1
+        return v
+
     def assume(self, c):
         if c is True:
             return
@@ -1276,7 +1391,10 @@ class Engine:
                 self.aborted = True
                 raise PathAbort('violated')
             return True
-        e = z3.simplify(cond.e)
+        e = cond.e
+        if self.fixed:
+            e = self._subst(e)
+        e = z3.simplify(e)
         if z3.is_true(e):
             self.stats.checks_trivial += 1
             return True
@@ -1301,9 +1419,9 @@ class Engine:
         """unconditional failure on this path (e.g. an exception escaped the library)"""
         self.path_labels.append(label)
         self.stats.checks_trivial += 1
-        self._violation(label, sig or label, detail, None)
+        self._violation(label, sig or label, detail, None, 'fail')
 
-    def _violation(self, label, sig, detail, model):
+    def _violation(self, label, sig, detail, model, kind='check'):
         if model is None:
             r = self._check()
             if r != z3.sat:
@@ -1311,6 +1429,7 @@ class Engine:
                 return
             model = self.solver.model()
         v = Violation(label, sig, detail, self.model_inputs(model), list(self.choices))
+        v.kind = kind
         self.violations.append(v)
         self.path_viol.append(v)
 
@@ -1418,6 +1537,9 @@ class ConcreteEngine:
         d = self.decisions[self.cpos]
         self.cpos += 1
         return d
+
+    def pick(self, x):
+        return x
 
     def assume(self, c):
         if not c:
